@@ -165,8 +165,17 @@ pub fn run(source: &Path) -> Result<()> {
         p.push(".backup-redb-v2-tuples");
         p.into()
     };
-    info!("rename {} -> {}", source.display(), backup.display());
-    std::fs::rename(source, &backup)?;
-    target.persist_noclobber(source)?;
+    // The store path must name a complete database at every instant: if the process dies while
+    // the path is vacant, the next open would silently create a new, empty store. So the old file
+    // only gets a second name (the backup), and the converted file then replaces it in one step.
+    info!("link {} -> {}", source.display(), backup.display());
+    match std::fs::remove_file(&backup) {
+        Err(err) if err.kind() != std::io::ErrorKind::NotFound => return Err(err.into()),
+        _ => {}
+    }
+    if std::fs::hard_link(source, &backup).is_err() {
+        std::fs::copy(source, &backup)?;
+    }
+    target.persist(source)?;
     Ok(())
 }
